@@ -60,7 +60,7 @@ def run(ctx):
         parts = []
         for nm in names:
             if rng.random() < 0.55:
-                inner = "\n".join("  %s = %d" % (rng.choice("xyx^"), rng.randrange(9)) for _ in range(rng.randrange(0, 3)))
+                inner = "\n".join("  %s = %d" % (rng.choice("xyx^"), rng.randrange(9)) for _ in range(rng.randrange(0, 6)))
                 parts.append("GROUP = %s\n%s\nEND_GROUP = %s" % (nm, inner.replace("^ =", "^p ="), nm))
             else:
                 parts.append("%s = %d" % (nm, rng.randrange(100)))
